@@ -176,6 +176,37 @@ fn matched_line<'t, P: Program<'t>>(g: &P, n: usize, path: &str) -> String {
     }
 }
 
+/// captures with their byte offsets in the candidate path
+fn matched_offsets(g: &Glob<'_>, path: &str) -> String {
+    let n = g.captures().count();
+    let c = CandidatePath::from(path);
+    let text: &str = c.as_ref();
+    let base = text.as_ptr() as usize;
+    let is = g.is_match(c.clone());
+    match g.matched(&c) {
+        None => format!("nomatch is={}", u8::from(is)),
+        Some(m) => {
+            let v: Vec<String> = (0..=n + 1)
+                .map(|i| match m.get(i) {
+                    Some(t) => {
+                        let off = (t.as_ptr() as usize).wrapping_sub(base);
+                        if off <= text.len() && off + t.len() <= text.len() && &text[off..off + t.len()] == t {
+                            format!("s:{}@{}", hex(t), off)
+                        }
+                        else {
+                            format!("s:{}@?", hex(t))
+                        }
+                    },
+                    None => "n".into(),
+                })
+                .collect();
+            let owned = m.to_owned();
+            let same = (0..=n + 1).all(|i| owned.get(i) == m.get(i));
+            format!("match is={} n={} candidate={} owned={} {}", u8::from(is), n, hex(text), if same { "same" } else { "diff" }, v.join(" "))
+        },
+    }
+}
+
 /// every span is sliced out of the expression under catch_unwind, as the documentation does
 fn spans(e: &str) -> String {
     let slice = |a: usize, n: usize| -> String {
@@ -460,6 +491,10 @@ fn main() {
                     let n = g.captures().count();
                     matched_line(&g, n, &arg(1))
                 },
+            },
+            "MO" => match Glob::new(&arg(0)) {
+                Err(_) => "err".to_string(),
+                Ok(g) => matched_offsets(&g, &arg(1)),
             },
             "MA" => {
                 // MA <path> <k> <e1> .. <ek>
